@@ -338,25 +338,21 @@ func Indent(dst *bytes.Buffer, src []byte, prefix, indent string) error {
 // escaping within <script> tags, so an alternative JSON encoding must
 // be used.
 func HTMLEscape(dst *bytes.Buffer, src []byte) {
-	if !Valid(src) {
-		return
-	}
-	var v interface{}
-	dec := NewDecoder(bytes.NewBuffer(src))
-	dec.UseNumber()
-	if err := dec.Decode(&v); err != nil {
-		return
-	}
-	buf, _ := marshal(v)
-	dst.Write(buf)
+	// The escaping scanner behind Compact keeps every string, number and
+	// member as written ( a decode / encode round trip reordered members,
+	// dropped duplicates and lost numbers outside the float64 range ) and
+	// leaves dst untouched when src is not valid JSON.
+	_ = encoder.Compact(dst, src, true)
 }
 
 // Valid reports whether data is a valid JSON encoding.
 func Valid(data []byte) bool {
-	// A Decoder skips one leading ',' or ':' (values between tokens),
-	// so it cannot be used to validate a whole text.
-	var v interface{}
-	return Unmarshal(data, &v) == nil
+	// Neither decoder can decide this: a Decoder skips one leading ',' or ':'
+	// ( values between tokens ) and decoding into interface{} accepts number
+	// forms such as "01" or "1." while it rejects numbers outside the float64
+	// range. The scanner behind Compact applies exactly the JSON grammar.
+	var dst bytes.Buffer
+	return encoder.Compact(&dst, data, false) == nil
 }
 
 func init() {
